@@ -162,20 +162,17 @@ theorem binop_sound (sc : Bool) (op : BinOp) (l r : Operand) (t : Ty) (ol : Oper
 /-! ### unary operators -/
 
 theorem unop_sound (sc : Bool) (op : UnOp) (e o : Operand) (ok : OperandOk e)
-    (hsu : op = .addr → (designatorType e).isStructUnion = false)
     (har : (op = .preinc ∨ op = .predec ∨ op = .postinc ∨ op = .postdec) →
       e.ty.isArith = true ∨ e.ty.isPtr = true)
     (h : unaryOp sc op e = some o) : Constraints.unop op e = true := by
   have ie := isIntegerT_of_isInt e ok
   cases op <;> simp only [unaryOp] at h
   case addr =>
-    have hsu := hsu rfl
     cases hd : e.decayedFrom with
     | some p =>
       simp [Constraints.unop, designatesBitfield, hd]
     | none =>
       simp only [hd] at h
-      simp only [designatorType, hd] at hsu
       cases hl : e.lvalue <;> cases hf : e.ty.isFunc <;> cases hw : e.width <;>
         simp_all [Constraints.unop, designatesBitfield, designatorType]
   case deref =>
@@ -273,14 +270,7 @@ theorem compound_assign_sound (sc : Bool) (op : BinOp) (l r o : Operand) (ol : O
       exact ⟨hl, binop_sound sc op _ r t (by simpa [OperandOk] using ol) or' ht⟩
     · cases h
 
-/-- a variadic callee with fewer arguments than named parameters -/
-def variadicTooFew (f : Operand) (n : Nat) : Bool :=
-  match f.ty with
-  | .ptr _ (.func _ _ params true) => decide (n < params.length)
-  | _ => false
-
-theorem call_sound (f o : Operand) (n : Nat) (hx : variadicTooFew f n = false) (h : callType f n = some o) :
-    Constraints.call f n = true := by
+theorem call_sound (f o : Operand) (n : Nat) (h : callType f n = some o) : Constraints.call f n = true := by
   unfold callType at h
   split at h
   · rename_i q fq ret params va hf
@@ -289,10 +279,7 @@ theorem call_sound (f o : Operand) (n : Nat) (hx : variadicTooFew f n = false) (
     · split at h
       · cases h
       · rename_i h1 h2
-        cases va
-        · simp_all [Constraints.call]; omega
-        · simp [variadicTooFew, hf] at hx
-          simp [Constraints.call, hf]; omega
+        cases va <;> simp_all [Constraints.call] <;> omega
   · cases h
 
 theorem member_sound (arrow : Bool) (e o : Operand) (mty : Ty) (mq : Qual) (bits : Option Nat)
